@@ -15,6 +15,8 @@ CLASSES = {
     "DynamicBayesianNetwork": {"mro": ["DynamicBayesianNetwork", "DAG", "DiGraph"], "file": "pgmpy/models/DynamicBayesianNetwork.py"},
     "MarkovNetwork": {"mro": ["MarkovNetwork", "UndirectedGraph", "Graph"], "file": "pgmpy/models/MarkovNetwork.py"},
     "FactorGraph": {"mro": ["FactorGraph", "UndirectedGraph", "Graph"], "file": "pgmpy/models/FactorGraph.py"},
+    "ClusterGraph": {"mro": ["ClusterGraph", "UndirectedGraph", "Graph"], "file": "pgmpy/models/ClusterGraph.py"},
+    "JunctionTree": {"mro": ["JunctionTree", "ClusterGraph", "UndirectedGraph", "Graph"], "file": "pgmpy/models/JunctionTree.py"},
     "Graph": {"mro": ["Graph"], "file": None},
     "DiGraph": {"mro": ["DiGraph"], "file": None},
 }
